@@ -155,13 +155,13 @@ func (c *Conn) WriteTo(b []byte, addr net.Addr) (int, error) {
 	c.writes = append(c.writes, w)
 	c.events = append(c.events, Event{Seq: w.Seq, T: w.T, Kind: "tx", K: k, Len: len(b)})
 	c.mu.Unlock()
-	if c.WriteErr != nil {
+	if c.OnWrite != nil {
+		c.OnWrite(w)
+	}
+	if c.WriteErr != nil { // after OnWrite: a write that blocks for a while (things happen meanwhile) and then fails
 		if err := c.WriteErr(k); err != nil {
 			return 0, err
 		}
-	}
-	if c.OnWrite != nil {
-		c.OnWrite(w)
 	}
 	if c.Delay != nil {
 		c.Delay("tx.after")
